@@ -32,12 +32,12 @@ def main():
     os.makedirs(out_root, exist_ok=True)
     summary = []
     for d in sorted(os.listdir("/tmp")):
-        m = re.fullmatch(r"mut-(C\d+)", d)
+        m = re.fullmatch(r"mut-(C\d+)([a-z]?)", d)
         if not m:
             continue
         pid = m.group(1)
-        for n in (1, 2):
-            key = "%s-%d" % (pid, n)
+        for n in (1, 2, 3):
+            key = "%s%s-%d" % (pid, m.group(2), n)
             if only and key not in only:
                 continue
             patch = "/tmp/%s/OUT/patch%d.diff" % (d, n)
